@@ -4,8 +4,10 @@ CONSTANTS
   Driven = {1,2}
   Targets = {1,2,3}
   AliasTargets = {3}
-  MaxNum = 2
-  MaxOps = 6
+  MaxNum = 3
+  MaxOps = 7
+  Order <- OrderReal
+  Jumps = TRUE
 VIEW View
 ACTION_CONSTRAINT Emit
 CHECK_DEADLOCK FALSE
